@@ -86,6 +86,11 @@ class C{k}{gbase}:
         if SWITCH.get("other_yielding"):
             yield get_alias(self).other, "other yielded"
 dependent_required({{"other": [{fname!r}]}}, owner=C{k})
+{deco}@dataclass
+class D{k}:
+    {fname}: int = field(default=0{", metadata=" + mds if mds else ""})
+    dep: int = 0
+dependent_required({{{fname!r}: ["dep"]}}, owner=D{k})
 CT{k} = {ct}
 @dataclass
 class H{k}:
@@ -196,6 +201,23 @@ def check_config(mod, k, cfg, st: infra.Stats):
                 exp_dr = {other_ext: [ext]}
                 if dr != exp_dr:
                     viol(sname + ".dependentRequired", f"{dr} != {exp_dr}")
+            # dependent_required is enforced on, and reported with, the external names
+            D = getattr(mod, f"D{k}")
+            dep_ext = DYN[dyn](CLASS_AL[cal]("dep") if cal else "dep")
+            for datum, ok in (({ext: 1}, False), ({ext: 1, dep_ext: 2}, True), ({}, True), ({dep_ext: 2}, True)):
+                try:
+                    deserialize(D, datum, **kw)
+                    if not ok:
+                        viol("dependent_required_enforced", f"{datum} accepted although {ext!r} requires {dep_ext!r}")
+                except ValidationError as e:
+                    if ok:
+                        viol("dependent_required_enforced", f"{datum} rejected: {locs(e)}")
+                    elif locs(e) != [((dep_ext,), f"missing property (required by [{ext!r}])")]:
+                        viol("dependent_required_loc", f"{datum}: {locs(e)}")
+            for sname, fn in (("deserialization_schema", deserialization_schema), ("serialization_schema", serialization_schema)):
+                dr = fn(D, **kw).get("dependentRequired")
+                if dr != {ext: [dep_ext]}:
+                    viol(sname + ".dependentRequired(D)", f"{dr} != {{{ext!r}: [{dep_ext!r}]}}")
             # error locations
             try:
                 deserialize(C, {ext: "bad"}, **kw)
@@ -219,6 +241,14 @@ def check_config(mod, k, cfg, st: infra.Stats):
                 except ValidationError as e:
                     if locs(e) != [((ext,), msg)]:
                         viol("validator_loc:" + sw, f"{locs(e)}")
+                # the same validator failing while another field is structurally invalid (validators then run
+                # on the partially built object, through another call site)
+                try:
+                    deserialize(C, {ext: 1, other_ext: "bad"}, **kw)
+                    viol("validator_loc_with_field_error:" + sw, "accepted")
+                except ValidationError as e:
+                    if locs(e) != sorted([((ext,), msg), ((other_ext,), "expected type integer, found string")]):
+                        viol("validator_loc_with_field_error:" + sw, f"{locs(e)}")
                 # nested and flattened
                 try:
                     deserialize(H, {inner_ext: {ext: 1}}, **kw)
